@@ -516,6 +516,7 @@ pub fn c01(ctx: &mut Ctx) {
             run(ctx, bytes::sdes_bodies_space(4, vec![0x00, 0x01, 0x08], vec![1]), Mode::SdesOnly, false);
         }
     }
+    run(ctx, bytes::sdes_utf8_split_space(), Mode::All, true);
     run(ctx, bytes::fci_raw_space(), Mode::FciOnly, false);
     run(ctx, bytes::giants_space(), Mode::Giant, false);
     run(ctx, bytes::giants_runs_space(), Mode::Giant, false);
